@@ -18,7 +18,7 @@ namespace Givaro {
     template <class Domain>
     inline typename Poly1Dom<Domain,Dense>::Rep& Poly1Dom<Domain,Dense>::shiftin ( Rep& R, int s) const
     {
-        R.insert(R.begin(), s, this->_domain.zero );
+        if (! R.empty()) R.insert(R.begin(), s, this->_domain.zero );
         return R;
     }
 
@@ -35,7 +35,7 @@ namespace Givaro {
     {
         for(typename Rep::iterator ri = R.begin();ri!=R.end();++ri)
             _domain.mulin(*ri, u);
-        return R;
+        return setdegree(R);
 
         //  return _supportdomain.mulin(R,u);
     }
@@ -121,7 +121,7 @@ namespace Givaro {
         R.resize(P.size());
         for(typename Rep::iterator ir = R.begin(); ir != R.end(); ++ir, ++ip)
             this->_domain.mul(*ir, *ip, u);
-        return R;
+        return setdegree(R);
     }
 
     template <class Domain>
@@ -323,7 +323,7 @@ namespace Givaro {
         if (sP >1) {
             R.resize(1);
             _domain.assign(R[0], u);
-            return R;
+            return setdegree(R);
         }
         R.resize(0); // else deg(R)<deg(P)=0 implies R=0
         return R;
